@@ -17,6 +17,7 @@ theorem `size_fits` shows it never happens for the size type the code selects).
 Each definition follows the loop structure of the C++ function of the same name.
 -/
 import Tetl.Common
+import Tetl.C01.GenSize
 namespace Tetl.C01
 
 abbrev V := List Nat
@@ -54,9 +55,11 @@ def selfMv : Kind → Nat → Nat
 
 /-! ### smallest_size_t -/
 
-/-- `smallest_size_t<N>`: the threshold chain `N < (unsigned char)(-1)` … as a bit width -/
-def smallestBits (n : Nat) : Nat :=
-  if n < 255 then 8 else if n < 65535 then 16 else if n < 4294967295 then 32 else 64
+/-- `smallest_size_t<N>` as a bit width: the `conditional_t` chain of the header — `GenSize.chain`, regenerated from
+    `_type_traits/smallest_size_t.hpp` on every run (gen/sizetype.py), thresholds as the source spells them — evaluated
+    for `N = n` (`pick`), then the width of the selected type under the target's data model (`CTy.bits`).
+    `smallestBits_closed` gives the closed form for the header as it is. -/
+def smallestBits (n : Nat) : Nat := (pick n GenSize.chain GenSize.fallback).bits
 
 /-- `_size = size_type(newSize)` -/
 def wrap (cap n : Nat) : Nat := n % 2 ^ smallestBits cap
